@@ -49,6 +49,13 @@ def main():
         output["quantile"][:] = quantiles
         output.createVariable("x", "f4", ("time", "leadtime", "location", "quantile"))
         output.variables["x"][:] = input.quantile_scores
+    num_members = input.num_members
+    if num_members > 0:
+        if args.debug:
+            print("Adding %d ensemble members" % num_members)
+        output.createDimension("ensemble_member", num_members)
+        output.createVariable("ensemble", "f4", ("time", "leadtime", "location", "ensemble_member"))
+        output.variables["ensemble"][:] = input.ensemble
 
     vTime = output.createVariable("time", "f8", ("time",))
     vOffset = output.createVariable("leadtime", "f4", ("leadtime",))
